@@ -43,7 +43,13 @@ def producers(F):
                 out.setdefault("<non-constant name in %s>" % f["path"], {"keys": set(), "fn": f["path"], "line": s["line"], "file": f["file"]})
                 continue
             keys = set(_tuple_keys(F, f))
-            # field enums whose into_lower is mapped and collected into the data map
+            # field enums whose into_lower is mapped and collected into the data map - directly, or inside a generic helper
+            # of the crate that is instantiated with the field enum (`lower_directive_data::<PlutusWitnessField>(..)`)
+            pair_impls = {}
+            for g in F.fns.values():
+                if g.get("impl_trait") == "tx3_lang::lowering::IntoLower" and g.get("name") == "into_lower" and g["locals"] and \
+                        g["locals"][0].startswith("std::result::Result<(std::string::String,"):
+                    pair_impls[g.get("impl_self")] = g
             for b in with_closures(F, f):
                 for bj, t in mir.calls(b):
                     r = t.get("resolved") or ""
@@ -52,48 +58,71 @@ def producers(F):
                         # only impls that return a (String, Expression) pair contribute keys
                         if g["locals"] and g["locals"][0].startswith("std::result::Result<(std::string::String,"):
                             keys |= _tuple_keys(F, g)
+                    elif r in F.fns and F.fns[r]["crate"] == "tx3_lang" and not t.get("trait") and t.get("gargs"):
+                        h = F.fns[r]
+                        calls_generic_lower = any(t2.get("trait") == "tx3_lang::lowering::IntoLower" and not t2.get("resolved")
+                                                  for hb in with_closures(F, h) for _, t2 in mir.calls(hb))
+                        if calls_generic_lower:
+                            for ga in t["gargs"]:
+                                if ga in pair_impls:
+                                    keys |= _tuple_keys(F, pair_impls[ga])
             ent = out.setdefault(names[0], {"keys": set(), "fn": f["path"], "line": s["line"], "file": f["file"]})
             ent["keys"] |= keys
     return out
 
 
 def _is_name_compare(F, b, du, t):
-    """`x.name.as_str() == "lit"` (any PartialEq::eq between a `.name` and a string literal) -> lit"""
+    """`x.name.as_str() == <string>` (any PartialEq::eq between a `.name` and a string) -> [(literal, fn that supplies it, line)].
+    The string may be a literal, or a parameter / captured variable of a helper (`fn directives(tx, name)`): then the
+    literals are the ones the helper's callers pass, and the caller is the consumer."""
+    from .common import outer_origins
     c = t.get("callee") or ""
     if not (c == "std::cmp::PartialEq::eq" or c.endswith("::eq")) or "PartialEq" not in (c + (t.get("resolved") or "") + (t.get("trait") or "")):
         return None
-    lit = None
-    other = None
+    sides = []
     for a in t["args"]:
-        for o in mir.provenance(b, du, a):
-            sv = mir.promoted_str(F, o.const) if o.kind == "const" else None
-            if sv is not None:
-                lit = sv
-            elif o.kind != "const":
-                other = o
-    if lit is None or other is None:
+        sides.append(mir.provenance(b, du, a))
+    if len(sides) != 2:
         return None
-    if ".name" in other.proj:
-        return lit
-    return None
+    name_side = None
+    for i, sd in enumerate(sides):
+        if any(o.kind != "const" and ".name" in o.proj for o in sd):
+            name_side = i
+    if name_side is None:
+        return None
+    lits = []
+    for fn2, o in outer_origins(F, b, t["args"][1 - name_side], depth=3):
+        sv = mir.promoted_str(F, o.const) if o.kind == "const" else None
+        if sv is not None:
+            lits.append((sv, fn2, t["line"] if fn2 is b else fn2["line"]))
+    return lits or None
 
 
 def consumers(F):
     """name -> {"keys": set, "fns": set(owner fn paths), "sites": [(file, line)]}"""
     out = {}
     cg = CallGraph(F, callbacks=False)
+    # (literal, function that supplies it) pairs: the supplier is the function that selects directives of that name
+    by_supplier = {}
     for f in F.fns.values():
-        if f["crate"] != "tx3_cardano" or is_derive(f) or f["def_kind"] == "Closure":
+        if f["crate"] != "tx3_cardano" or is_derive(f):
             continue
-        names = []
-        for b in with_closures(F, f):
-            du = mir.DefUse(b)
-            for bi, t in mir.calls(b):
-                lit = _is_name_compare(F, b, du, t)
-                if lit is not None:
-                    names.append((lit, b, t["line"]))
-        if not names:
+        du = None
+        for bi, t in mir.calls(f):
+            c = t.get("callee") or ""
+            if not (c == "std::cmp::PartialEq::eq" or c.endswith("::eq")):
+                continue
+            du = du or mir.DefUse(f)
+            for lit, fn2, line in (_is_name_compare(F, f, du, t) or ()):
+                owner = fn2.get("owner") or fn2["path"]
+                if owner.endswith("::{closure#0}") and owner[:-len("::{closure#0}")] in F.fns:
+                    owner = owner[:-len("::{closure#0}")]
+                by_supplier.setdefault(owner, []).append((lit, fn2["file"], line))
+    keys_of = {}
+    for owner, names in by_supplier.items():
+        if owner not in F.fns:
             continue
+        f = F.fns[owner]
         # keys read by this function, its closures and the tx3-cardano functions they call
         reach = cg.reachable([f["path"]] + [c["path"] for c in with_closures(F, f)[1:]])
         keys = set()
@@ -112,9 +141,9 @@ def consumers(F):
                     for o in mir.provenance(g, du, t["args"][1]):
                         if o.kind == "const" and "str" in o.const:
                             keys.add(o.const["str"])
-        for lit, b, line in names:
+        for lit, file, line in names:
             ent = out.setdefault(lit, {"keys": set(), "fns": set(), "sites": []})
             ent["keys"] |= keys
             ent["fns"].add(f["path"])
-            ent["sites"].append((f["file"], line, f["path"]))
+            ent["sites"].append((file, line, f["path"]))
     return out
